@@ -311,6 +311,26 @@ func (e *Engine) globalRef(vc *VC, g *ssa.Global) string {
 				vc.assertGlobal(fmt.Sprintf("(not (= %s %s))", name, other))
 			}
 		}
+		// package-level values declared constant: one fixed value, independent of memory
+		if g.Pkg != nil {
+			for _, cn := range e.contracts.Constants[g.Pkg.Pkg.Path()] {
+				if cn == g.Name() {
+					et := g.Type().(*types.Pointer).Elem()
+					lay := layout(et)
+					ls := make([]string, len(lay))
+					for k := range ls {
+						ls[k] = fmt.Sprintf("gconst_%d_%d", id, k)
+						vc.decls = append(vc.decls, fmt.Sprintf("(declare-const %s Int)", ls[k]))
+					}
+					v, _ := unflatten(et, ls)
+					if vc.constGlobalVals == nil {
+						vc.constGlobalVals = map[string]Val{}
+					}
+					vc.constGlobalVals[name] = v
+					vc.used["package-level value "+g.Pkg.Pkg.Name()+"."+cn+" is never reassigned"] = true
+				}
+			}
+		}
 	}
 	return name
 }
@@ -681,6 +701,29 @@ func (e *Engine) instrShape(ins ssa.Instruction) []string {
 		}
 	}
 	return out
+}
+
+// siteInstrCount: number of instructions matched by the site in the functions it sweeps.
+func (e *Engine) siteInstrCount(s *Site) int {
+	n := 0
+	for _, fn := range e.functionsWithSites(s) {
+		for _, b := range fn.Blocks {
+			for _, ins := range b.Instrs {
+				hit := false
+				for _, sh := range e.instrShape(ins) {
+					for _, m := range s.Match {
+						if m == sh || globMatch(m, sh) {
+							hit = true
+						}
+					}
+				}
+				if hit {
+					n++
+				}
+			}
+		}
+	}
+	return n
 }
 
 func (e *Engine) functionsWithSites(s *Site) []*ssa.Function {
